@@ -39,10 +39,11 @@ pub struct NoWriteWhileReceiving;
 pub struct ProceedConsumes;
 
 /// `Flow` is not `Clone` (a state cannot be duplicated to bypass consumption).
-/// ```compile_fail,E0599
+/// ```compile_fail,E0277
 /// use ureq_proto::client::flow::{Flow, state::Prepare};
-/// fn f(flow: &Flow<(), Prepare>) {
-///     let _copy: Flow<(), Prepare> = flow.clone();
+/// fn needs_clone<T: Clone>() {}
+/// fn f() {
+///     needs_clone::<Flow<(), Prepare>>();
 /// }
 /// ```
 /// ```no_run
